@@ -81,7 +81,18 @@ def run_impl(vals, uin, uout, meta):
     with warnings.catch_warnings():
         warnings.simplefilter('ignore')
         try:
-            r = compute_flux(np.array([float(x) for x in vals]) * UNITS[uin][0], UNITS[uout][0], **kw)
+            q = np.array([float(x) for x in vals]) * UNITS[uin][0]
+            q0v, q0u = q.value.copy(), q.unit
+            kw0 = {k: (None if v is None else (v.value, v.unit)) for k, v in kw.items()}
+            r = compute_flux(q, UNITS[uout][0], **kw)
+            # the caller's quantities are inputs: they must come back untouched, and asking again (the caller may
+            # sum the same array, or views of it, several times) must give the same answer
+            if q.unit != q0u or not np.array_equal(q.value, q0v) or \
+                    any(v is not None and (v.value, v.unit) != kw0[k] for k, v in kw.items()):
+                return ('exc', 'InputModified', 'compute_flux changed its input: %r %s -> %r %s' % (q0v.tolist(), q0u, q.value.tolist(), q.unit))
+            r2 = compute_flux(q, UNITS[uout][0], **kw)
+            if float(r2.value) != float(r.value) or r2.unit != r.unit:
+                return ('exc', 'NotRepeatable', 'second call on the same array gives %r, first %r' % (r2, r))
             return ('ok', float(r.value), str(r.unit))
         except ValueError as e:
             for msg, code in ERRS:
